@@ -6,8 +6,10 @@ A seed is kept when its demo exited 0 / non-zero / 0 (pristine / patched / rever
 import glob, json, os, re, subprocess, sys
 
 kind = sys.argv[1]
-sub = "_seed" if kind == "seeds" else "_twin"
-pref = "s" if kind == "seeds" else "t"
+sub = "_seed" if kind in ("seeds", "seeds5") else "_twin"
+pref = {"seeds": "s", "seeds5": "u", "twins": "t"}[kind]
+suffix = "-r5" if kind == "seeds5" else ""
+rnd = {"seeds": "4", "seeds5": "5", "twins": "twins-2"}[kind]
 wts = [f"/tmp/wt_{pref}{x}" for x in sys.argv[2:]] or sorted(glob.glob(f"/tmp/wt_{pref}[0-9][0-9]"))
 
 
@@ -33,13 +35,13 @@ for wt in wts:
             print(f"{pid}-{name}: not evaluated, skipped")
             continue
         notes = open(d + "notes.md").read() if os.path.exists(d + "notes.md") else ""
-        if kind == "seeds":
+        if kind in ("seeds", "seeds5"):
             st = d + ".suite.txt"
             if not os.path.exists(st) or "stable_pass 75/75" not in open(st).read():
                 print(f"{pid}-{name}: full suite missing or not 75/75, skipped")
                 continue
             breaks = section(notes, [r"clause", r"broken", r"breaks"]) or " ".join(notes.split())[:400]
             needs = section(notes, [r"manifest", r"trigger", r"needed"])
-            subprocess.run(["/verif/tools/keep_seed.py", wt, name, pid, "--breaks", breaks, "--needs", needs])
+            subprocess.run(["/verif/tools/keep_seed.py", wt, name, pid, "--breaks", breaks, "--needs", needs, "--suffix", suffix, "--round", rnd])
         else:
             subprocess.run(["/verif/tools/keep_twin.py", wt, name, pid])
